@@ -538,7 +538,26 @@ def rule_tt2_memory_units(report, prog, rule='C01-R6'):
                      not any(isinstance(s, (ast.Continue,)) for s in ast.walk(loops[0])), rule,
                      key(f.qname, 'index advances by %d per iteration' % stride), f.loc(loops[0]),
                      'loop stride is not the %d octets one %s command moves' % (stride, cmd))
-    report.floor(rule, n, 8)
+    # the sector the tag object believes to be selected is the sector the tag has selected: the belief is updated only after the
+    # SECTOR SELECT exchange can no longer fail (no command and no raise after the store), else a failed select followed by a retry
+    # skips the command and page numbers are sent to the wrong sector
+    ss = prog.func('nfc.tag.tt2.Type2Tag.sector_select')
+    cfg = cfg_of(ss)
+    stores = [x for x in cfg.nodes if x.kind == 'stmt' and isinstance(x.ast, ast.Assign) and any(norm(t) == 'self._current_sector' for t in x.ast.targets)]
+    okk = len(stores) == 1
+    for st_ in stores:
+        after = cfg.reachable(st_)
+        for x in after:
+            if x is st_ or x.ast is None:
+                continue
+            if isinstance(x.ast, ast.Raise) or any(isinstance(c, ast.Call) and norm(c.func) in ('self.transceive', 'self.clf.exchange')
+                                                   for c in (ast.walk(x.ast) if not isinstance(x.ast, (ast.FunctionDef, ast.ClassDef)) else [])):
+                okk = False
+    n += 1
+    report.check(okk, rule, key(ss.qname, 'current sector recorded only after the select has succeeded'), ss.loc(stores[0].ast) if stores else ss.loc(),
+                 'sector_select() records the new sector before the SECTOR SELECT exchange is through: after a failed select the next call '
+                 'believes the sector is selected and sends page numbers to the old sector')
+    report.floor(rule, n, 9)
 
 
 def rule_t3_identity(report, prog, rule='C01-R7'):
